@@ -57,6 +57,21 @@ pub enum SeparatingHyperplane<F: Float> {
 
 /// Current state of the SMO solver
 ///
+/// Threshold taken from the admissible interval `[lb, ub]` when no variable is free
+///
+/// The interval is open on a side on which no variable sits at the corresponding bound (e.g. every
+/// variable at its upper bound for `nu = 1`); the finite end is then a valid choice, whereas the
+/// midpoint would be infinite.
+fn interval_midpoint<F: Float>(lb: F, ub: F) -> F {
+    if lb.is_finite() && !ub.is_finite() {
+        lb
+    } else if ub.is_finite() && !lb.is_finite() {
+        ub
+    } else {
+        (ub + lb) / F::cast(2.0)
+    }
+}
+
 /// We are solving the dual problem with linear constraints
 /// min_a f(a), s.t. y^Ta = d, 0 <= a_t < C, t = 1, ..., l
 /// where f(a) = a^T Q a / 2 + p^T a
@@ -736,7 +751,7 @@ impl<'a, F: Float, K: 'a + Permutable<F>> SolverState<'a, F, K> {
         if nfree > 0 {
             sum_free / F::cast(nfree)
         } else {
-            (ub + lb) / F::cast(2.0)
+            interval_midpoint(lb, ub)
         }
     }
 
@@ -773,12 +788,12 @@ impl<'a, F: Float, K: 'a + Permutable<F>> SolverState<'a, F, K> {
         let r1 = if nfree1 > 0 {
             sum_free1 / F::cast(nfree1)
         } else {
-            (ub1 + lb1) / F::cast(2.0)
+            interval_midpoint(lb1, ub1)
         };
         let r2 = if nfree2 > 0 {
             sum_free2 / F::cast(nfree2)
         } else {
-            (ub2 + lb2) / F::cast(2.0)
+            interval_midpoint(lb2, ub2)
         };
 
         self.r = (r1 + r2) / F::cast(2.0);
